@@ -25,3 +25,7 @@ mut commitoldterm raft/log.go 's/if maxIndex > l.committed \&\& l.zeroTermOnErrC
 mut learnervote raft/raft.go 's/if r.isLearner {/if false \&\& r.isLearner {/'
 mut nomatchterm raft/log.go 's/if l.matchTerm(index, logTerm) {/if true || l.matchTerm(index, logTerm) {/'
 mut quorum raft/raft.go 's|func (r \*raft) quorum() int { return len(r.prs)/2 + 1 }|func (r *raft) quorum() int { if len(r.prs) > 2 { return len(r.prs)/2 }; return len(r.prs)/2 + 1 }|'
+mut hbcommit raft/raft.go 's/commit := min(pr.Match, r.raftLog.committed)/commit := r.raftLog.committed/'
+mut snapbehind raft/raft.go 's/if s.Metadata.Index <= r.raftLog.committed {/if false \&\& s.Metadata.Index <= r.raftLog.committed {/'
+mut selfvotetwice raft/raft.go 's/if _, ok := r.votes\[id\]; !ok {/if true {/'
+mut removenodecommit raft/raft.go 's/if r.state == StateLeader \&\& r.maybeCommit() {/if r.maybeCommit() {/'
